@@ -383,6 +383,7 @@ def r2_subschemas(chk, kind, ver, wf, rf, wt, key0):
     chk.require(len(z) == 1 and len(z[0].args) == 2, f"{rf.key}: Atom(**dict(zip(SCHEMA, a))) idiom not found")
     r_schema_expr = _subst(RX(z[0].args[0]), rbind)
     rS, rk = _schema_of(chk, m, r_schema_expr)
+    _no_value_filter(chk, key0, "atom", rf, ra[0], z[0])
     same = (wS, wk) == (rS, rk) or (prog.const_eval(m, WX(at[0].args[0])) == prog.const_eval(m, r_schema_expr))
     chk.decide(same and wk == 0, "C01.R2", f"{key0}:atom-schema", rf.where(ra[0]), f"writer and reader both use {wS}",
                f"atoms are written with {wS}[{wk}:] and read with {rS}[{rk}:]")
@@ -437,6 +438,7 @@ def r2_subschemas(chk, kind, ver, wf, rf, wt, key0):
         sl = star[0].value.slice
         k1 = sl.upper.value if isinstance(sl, ast.Slice) and sl.lower is None and isinstance(sl.upper, ast.Constant) else None
     chk.require(len(z) == 1 and len(z[0].args) == 2, f"{rf.key}: connect(**dict(zip(S[k:], b[k:]))) idiom not found")
+    _no_value_filter(chk, key0, "bond", rf, c, z[0])
     zs = RX(z[0].args[0])
     if isinstance(zs, ast.Subscript):
         zs = ast.Subscript(value=_subst(zs.value, cbind), slice=zs.slice, ctx=ast.Load())
@@ -453,6 +455,26 @@ def r2_subschemas(chk, kind, ver, wf, rf, wt, key0):
         head = None
     chk.decide(head == ("a1", "a2") and wbS == f"BOND_SCHEMA_V{ver}", "C01.R2", f"{key0}:bond-schema-head", wf.where(bt[0]),
                f"{wbS}[:2] == ('a1', 'a2')", f"{wbS}[:2] is {head}; the two leading positions carry the endpoints a1, a2 (expected BOND_SCHEMA_V{ver})")
+
+
+def _no_value_filter(chk, key0, what, rf, call, zipcall):
+    """every stored field value reaches the constructor: the name -> value pairing `zip(SCHEMA, record)` may not be thinned out
+    by a test of the value (`{k: v for k, v in zip(S, rec) if v}` hands a stored "" / 0 / Unknown (= 0) / 0.0 over to the class
+    default: label "" reads back as None, AtomType.Unknown as Regular, f_order 0.0 as 1.0).  `is not None` is accepted: None is
+    what msgpack stores for a field that was None."""
+    bad = None
+    for comp in ast.walk(call):
+        if isinstance(comp, (ast.DictComp, ast.GeneratorExp, ast.ListComp)):
+            for g in comp.generators:
+                if any(x is zipcall for x in ast.walk(g.iter)) and g.ifs:
+                    tv = {n.id for n in ast.walk(g.target) if isinstance(n, ast.Name)}
+                    for t in g.ifs:
+                        if names_in(t) & tv and not (isinstance(t, ast.Compare) and len(t.ops) == 1 and isinstance(t.ops[0], ast.IsNot)
+                                                     and isinstance(t.comparators[0], ast.Constant) and t.comparators[0].value is None):
+                            bad = t
+    chk.decide(bad is None, "C01.R2", f"{key0}:{what}-fields-all-restored", rf.where(call), f"every stored {what} field is handed to the constructor",
+               f"the reader drops a stored {what} field when `{short(bad, 40) if bad is not None else ''}` is false and lets the class default stand in: a legal falsy value "
+               f"(label '', an enum member whose value is 0, f_order 0.0, formal charge 0 where the default differs) does not read back")
 
 
 # ---------------------------------------------------------------------------
@@ -504,6 +526,25 @@ def r5_library(chk):
         chk.analysed(init)
         from ..canon import Env, ifchain, lift_ifexp_assign, specialize
 
+        # nothing that looks at the file on behalf of the constructor is memoised: what a path holds changes (a legacy file is
+        # re-created in the current format with overwrite=True), a remembered answer selects the codec of the file that was
+        memo = []
+        for c in ast.walk(init.node):
+            if isinstance(c, ast.Call) and isinstance(c.func, ast.Name):
+                r = prog.resolve_name(ci.module, c.func.id)
+                fn = getattr(r, "node", None)
+                if isinstance(fn, ast.FunctionDef):
+                    decos = {norm(d.func if isinstance(d, ast.Call) else d) for d in fn.decorator_list}
+                    if decos & {"cache", "lru_cache", "functools.cache", "functools.lru_cache"}:
+                        looks = [x for x in ast.walk(fn) if isinstance(x, ast.Call) and (call_name(x) in ("open", "os.path.isfile", "os.path.exists", "os.stat")
+                                 or (isinstance(x.func, ast.Attribute) and x.func.attr in ("is_file", "exists", "read_bytes", "read_text", "stat", "open")))]
+                        if looks:
+                            memo.append((c, fn))
+        chk.decide(not memo, "C01.R5", f"{init.key}:file-inspection-not-memoised", init.where(memo[0][0]) if memo else init.where(),
+                   "the constructor inspects the file itself on every call",
+                   (f"`{memo[0][1].name}` inspects the file and is memoised ({', '.join(norm(d) for d in memo[0][1].decorator_list)}): the codec is chosen from what the path held "
+                    "when it was first looked at in this process - after the file is re-created (legacy library overwritten in the current format) records are "
+                    "decoded with the other version's reader") if memo else "")
         init = lift_ifexp_assign(ifchain(init))  # this rule reads version dispatch as an if / elif chain
         def binds(body, path):
             """values stored into `path` anywhere in body (tuple unpacking of a tuple display is element-wise)"""
